@@ -59,6 +59,8 @@ structure Scan where
   sdPres : List (List Nat) := [] -- the spans ended before each Shutdown call, in call order
   sdOkRets : Nat := 0            -- number of Shutdown calls that have returned nil
   f41 : Bool := false            -- a later Shutdown call returned nil with only late spans of its own pre set missing [F41]
+  sdErr : Bool := false          -- a Shutdown call has returned an error: only the call that won `stopOnce` can, its context ended
+  f47 : Bool := false            -- a Shutdown call returned nil after that and before the exporter was shut down [F47]
 
 def scanStep (blocking : Bool) (dropped : Nat) (s : Scan) : Ev → Scan
   | .ended id => { s with ended := id :: s.ended }
@@ -82,7 +84,12 @@ def scanStep (blocking : Bool) (dropped : Nat) (s : Scan) : Ev → Scan
     let s := { s with sdPres := s.sdPres ++ [s.ended] }
     if s.sdCalled then s else { s with sdCalled := true, sdPre := s.ended }
   | .sdReturned ok =>
-    if !ok then s else
+    -- an error return: the context of the call that won `stopOnce` ended (the other calls wait in `Once.Do`, which has no
+    -- context); the call is judged by the clauses that hold regardless (S1, S2, S3, S6, the exporter shut down at most once)
+    if !ok then { s with sdErr := true } else
+    -- known finding F47: after that, a Shutdown call returns nil at once although the shutdown goroutine is still draining;
+    -- as long as the exporter has not been shut down such a nil return promises nothing (no S3-at-return, S4, S5 for it)
+    if s.sdErr && !s.expShutdownDone then { s with f47 := true, sdOkRets := s.sdOkRets + 1 } else
     -- the events carry no caller identity: the j-th nil return is judged with the pre set of the j-th call. Among
     -- the calls that have returned nil by then at least one was called no earlier than the j-th call, so the
     -- demand is never more than what some returned call owes (and exact when calls return in call order).
@@ -118,6 +125,11 @@ def histCheck (maxB : Nat) (blocking : Bool) (dropped : Nat) (allEnded allUnsamp
 were missing, all spans ended before the first Shutdown call being delivered (known finding F41) -/
 def histF41 (blocking : Bool) (dropped : Nat) (h : List Ev) : Bool :=
   (h.foldl (scanStep blocking dropped) {}).f41
+
+/-- the F47 flag of the oracle: a Shutdown call returned nil after another one had returned an error (the context of the
+call that won `stopOnce` ended) and before the exporter's Shutdown ended (known finding F47) -/
+def histF47 (blocking : Bool) (dropped : Nat) (h : List Ev) : Bool :=
+  (h.foldl (scanStep blocking dropped) {}).f47
 
 /-- what a history shows at the moment a hang event is stamped (`pre` = the events before it): has the exporter's
 Shutdown ended (the processor calls it after the worker has exited), is a Shutdown call outstanding, and which
